@@ -185,14 +185,14 @@ impl<'a> Querier for ChainQuerier<'a> {
                 let v: Vec<_> = c
                     .deleg
                     .iter()
-                    .filter(|((d, _), amt)| *d == delegator && **amt > 0)
+                    .filter(|((d, _), _)| *d == delegator)
                     .map(|((d, val), amt)| json!({"delegator":d,"validator":val,"amount":{"denom":USEI,"amount":amt.to_string()}}))
                     .collect();
                 ok_bin(json!({ "delegations": v }))
             }
             QueryRequest::Staking(StakingQuery::Delegation { delegator, validator }) => {
                 let amt = c.delegation(&delegator, &validator);
-                if amt == 0 {
+                if !c.has_delegation(&delegator, &validator) {
                     ok_bin(json!({ "delegation": null }))
                 } else {
                     let can = c.can_redelegate(&delegator, &validator);
@@ -331,6 +331,10 @@ impl Chain {
     pub fn delegation(&self, d: &str, v: &str) -> u128 {
         self.deleg.get(&(d.to_string(), v.to_string())).copied().unwrap_or(0)
     }
+    /// a delegation slashed down to zero tokens still exists (it keeps its shares), as in the SDK
+    pub fn has_delegation(&self, d: &str, v: &str) -> bool {
+        self.deleg.contains_key(&(d.to_string(), v.to_string()))
+    }
     pub fn total_delegated(&self, d: &str) -> u128 {
         self.deleg.iter().filter(|((x, _), _)| x == d).map(|(_, a)| *a).sum()
     }
@@ -430,7 +434,6 @@ impl Chain {
                 *a = surv;
             }
         }
-        self.deleg.retain(|_, a| *a > 0);
         burned
     }
     pub fn slash_unbonding(&mut self, v: &str, num: u128, den: u128) -> u128 {
@@ -578,7 +581,7 @@ impl Chain {
                 if amount.denom != USEI || amount.amount.is_zero() {
                     return Err(format!("staking: invalid delegation amount {}", amount));
                 }
-                if self.delegation(from, &validator) > 0 {
+                if self.has_delegation(from, &validator) {
                     self.auto_withdraw(from, &validator, fx, false);
                 }
                 let k = (from.to_string(), USEI.to_string());
@@ -630,7 +633,7 @@ impl Chain {
                     return Err("staking: redelegation to this validator already in progress; first redelegation to this validator must complete before next redelegation".into());
                 }
                 self.auto_withdraw(from, &src_validator, fx, false);
-                if self.delegation(from, &dst_validator) > 0 {
+                if self.has_delegation(from, &dst_validator) {
                     self.auto_withdraw(from, &dst_validator, fx, false);
                 }
                 if have == amount.amount.u128() {
@@ -649,7 +652,7 @@ impl Chain {
                 Ok(())
             }
             CosmosMsg::Distribution(DistributionMsg::WithdrawDelegatorReward { validator }) => {
-                if self.delegation(from, &validator) == 0 {
+                if !self.has_delegation(from, &validator) {
                     return Err(format!("distribution: no delegation for ({}, {})", from, validator));
                 }
                 self.auto_withdraw(from, &validator, fx, true);
